@@ -246,8 +246,12 @@ func cmdCheck(args []string) int {
 		res *FuncResult
 	}
 	var results []*FuncResult
+	curCheckID = id
 	for _, sp := range specs.Order {
-		if sp.Property != id {
+		// a contract belongs to the property of its section, and to every
+		// property named in an "also <id> ..." clause (a function two properties
+		// depend on is checked - under that property's name - by both)
+		if sp.Property != id && !alsoProperty(sp, id) {
 			continue
 		}
 		if *only != "" && !strings.Contains(sp.Key, *only) {
